@@ -23,16 +23,20 @@ def sharesOf (sid beta : Bytes) (vx : List (List Bytes)) (msg : Msg2) : List ℕ
 
 theorem receiverCore_eq (sid beta : Bytes) (vx : List (List Bytes)) (msg : Msg2) :
     receiverCore (m := Id) h sid beta vx msg =
-      if msg.muHash = checkDigest h sid beta vx msg then .ok (sharesOf h sid beta vx msg) else .error checkFailed := by
+      if msg.muHash = checkDigest h sid beta vx msg ∧ etaCanonical msg.eta = true
+      then .ok (sharesOf h sid beta vx msg) else .error checkFailed := by
   rw [receiverCore_id, receiverMu_id]
-  unfold checkDigest sharesOf
+  unfold checkDigest sharesOf checkOk
   by_cases e : msg.muHash = muHashOf (m := Id) h sid
       (muReceiver (thetaAll (m := Id) h sid msg.aTilde) beta (decodeTable vx) (decodeTable msg.aTilde) (msg.eta.map ofBe))
-  · rw [if_neg (not_not.mpr e), if_pos e]
-  · rw [if_pos e, if_neg e]
+  · cases hc : etaCanonical msg.eta
+    · rw [if_pos (by simp [e]), if_neg (by simp)]
+    · rw [if_neg (by simp [e]), if_pos ⟨e, rfl⟩]
+  · rw [if_pos (by simp [e]), if_neg (fun hh => e hh.1)]
 
 theorem accepted_iff (sid beta : Bytes) (vx : List (List Bytes)) (msg : Msg2) :
-    Accepted (receiverCore (m := Id) h sid beta vx msg) ↔ msg.muHash = checkDigest h sid beta vx msg := by
+    Accepted (receiverCore (m := Id) h sid beta vx msg)
+      ↔ msg.muHash = checkDigest h sid beta vx msg ∧ etaCanonical msg.eta = true := by
   rw [receiverCore_eq]
   constructor
   · rintro ⟨d, hd⟩
@@ -45,12 +49,17 @@ theorem accepted_iff (sid beta : Bytes) (vx : List (List Bytes)) (msg : Msg2) :
 theorem rejected_of_ne (sid beta : Bytes) (vx : List (List Bytes)) (msg : Msg2)
     (hne : msg.muHash ≠ checkDigest h sid beta vx msg) :
     receiverCore (m := Id) h sid beta vx msg = .error checkFailed := by
-  rw [receiverCore_eq, if_neg hne]
+  rw [receiverCore_eq, if_neg (fun hh => hne hh.1)]
+
+theorem rejected_of_noncanonical (sid beta : Bytes) (vx : List (List Bytes)) (msg : Msg2)
+    (hne : etaCanonical msg.eta = false) :
+    receiverCore (m := Id) h sid beta vx msg = .error checkFailed := by
+  rw [receiverCore_eq, if_neg (fun hh => by rw [hne] at hh; exact Bool.false_ne_true hh.2)]
 
 theorem shares_of_accepted (sid beta : Bytes) (vx : List (List Bytes)) (msg : Msg2) (d : List ℕ)
     (hd : receiverCore (m := Id) h sid beta vx msg = .ok d) : d = sharesOf h sid beta vx msg := by
   rw [receiverCore_eq] at hd
-  by_cases e : msg.muHash = checkDigest h sid beta vx msg
+  by_cases e : msg.muHash = checkDigest h sid beta vx msg ∧ etaCanonical msg.eta = true
   · rw [if_pos e] at hd; cases hd; rfl
   · rw [if_neg e] at hd; cases hd
 
